@@ -363,7 +363,7 @@ def _model(case, ctx, g):
                 vf_ = torch.diagonal(pf.covariance_matrix, dim1=-2, dim2=-1)
                 # conditioning on more data never raises a variance: below the source's variance at the same points
                 vs_ = torch.diagonal(m(xq).covariance_matrix, dim1=-2, dim2=-1)
-                ctx.expect("nested_data_variance_monotone", bool((vf_ <= vs_ + 1e-8 * vs_.abs().max() + (1e-5 if case["fast_pred_var"] else 1e-9)).all()), f"fantasy model ({tag}) variance exceeds its source's: max excess {float((vf_ - vs_).max()):.3e}", where=tag)
+                ctx.expect("nested_data_variance_monotone", bool((vf_ <= vs_ + 1e-6 * vs_.abs().max() + (1e-5 if case["fast_pred_var"] else 1e-7)).all()), f"fantasy model ({tag}) variance exceeds its source's: max excess {float((vf_ - vs_).max()):.3e}", where=tag)
     ctx.cell({k: v for k, v in case.items() if k != "seed"})
 
 
